@@ -76,7 +76,8 @@ Spec == Init /\ [][Next]_vars
 Done == phase = "idle" /\ idx = Len(plan.cers) /\ run = Len(plan.stores)
 
 \* Layer A on the model
-PropertiesHold == P!Violated(obs) \subseteq Known
+PropertiesHold == \/ P!Violated(obs) \subseteq Known
+                  \/ PrintT(<<"VIOLATED", P!Violated(obs) \ Known>>) /\ FALSE
 
 ExportInv == (Export /\ Done) => PrintT(<<"REPLAY", ToJson(plan)>>)
 
@@ -111,5 +112,98 @@ C04_Cers ==
     { << Cer("ctap2", op, [BaseReq EXCEPT !.rk = rk, !.up = up, !.uv = uv, !.pinAuth = pin],
              [BaseEnv EXCEPT !.uv = a]) >> :
         op \in {"mc", "ga"}, rk \in BOOLEAN, up \in BOOLEAN, uv \in BOOLEAN, pin \in BOOLEAN, a \in C04_Answers }
+
+-----------------------------------------------------------------------------
+(* C11 (authenticator level): store capability x rk, then an assertion      *)
+
+C11_Cfgs == { [BaseCfg EXCEPT !.disc = d] : d \in {"full", "nondisc", "forced"} }
+C11_Stores == { << <<>> >> }
+C11_Cers == { << Cer("ctap2", "mc", [BaseReq EXCEPT !.rk = rk], BaseEnv),
+                 Cer("ctap2", "ga", BaseReq, BaseEnv) >> : rk \in BOOLEAN }
+
+-----------------------------------------------------------------------------
+(* C07: every store call failing (singly and combined), every cancel point  *)
+
+FaultCodes == {0, 1, 40, 242}       \* none, a CTAP1 error, a known CTAP2 error (KeyStoreFull), a vendor error
+FaultPlans == { <<a, b, c>> : a \in FaultCodes, b \in FaultCodes, c \in FaultCodes }
+CancelPoints == -1..6
+
+C07_Cfgs == { [BaseCfg EXCEPT !.hmac = "withoutuv", !.mc = TRUE] }
+C07_Stores == { << <<Cred("c1", "r1", "u1", Ctr(0, 7), "both"), Cred("c2", "r1", "u2", NoCtr, "none")>> >> }
+PrfOne == [given |-> TRUE, eval |-> "one", byCred |-> <<>>, byCredGiven |-> FALSE]
+C07_McReqs == { [BaseReq EXCEPT !.exclude = x, !.excludeGiven = (x # <<>>), !.rk = rk, !.prf = p, !.user = "u3"] :
+                  x \in {<<>>, <<"c1">>, <<"x1">>}, rk \in BOOLEAN, p \in {NoPrfReq, PrfOne} }
+C07_GaReqs == { [BaseReq EXCEPT !.allow = a, !.allowGiven = (a # <<>>), !.prf = p] :
+                  a \in {<<>>, <<"c1">>, <<"c2">>}, p \in {NoPrfReq, PrfOne} }
+C07_Cers ==
+    { << Cer("ctap2", "mc", r, [BaseEnv EXCEPT !.faults = f, !.cancelAt = k]) >> :
+        r \in C07_McReqs, f \in FaultPlans, k \in CancelPoints }
+    \cup
+    { << Cer("ctap2", "ga", r, [BaseEnv EXCEPT !.faults = f, !.cancelAt = k]) >> :
+        r \in C07_GaReqs, f \in { p \in FaultPlans : p[3] = 0 }, k \in -1..4 }
+
+-----------------------------------------------------------------------------
+(* C05: store contents over two relying parties x allow / exclude lists     *)
+
+RpChoice == {"r1", "r2", "absent"}
+C05_Contents ==
+    { SelectSeq(<<Cred("c1", a, "u1", NoCtr, "none"), Cred("c2", b, "u1", Ctr(0, 1), "none"),
+                  Cred("c3", c, "u2", NoCtr, "none")>>, LAMBDA x : x.rp # "absent") :
+        a \in RpChoice, b \in RpChoice, c \in RpChoice }
+C05_Stores == { <<s>> : s \in C05_Contents }
+C05_Lists == { <<>>, <<"c1">>, <<"c2">>, <<"c3">>, <<"x1">>, <<"c1", "c2">>, <<"c2", "c1">>, <<"c1", "c3">>,
+               <<"c3", "x1">>, <<"x1", "c2">>, <<"c1", "c2", "c3">> }
+C05_Cers ==
+    { << Cer("ctap2", "ga", [BaseReq EXCEPT !.rp = r, !.allow = a, !.allowGiven = g], BaseEnv) >> :
+        r \in {"r1", "r2"}, a \in C05_Lists, g \in BOOLEAN }
+    \cup
+    { << Cer("ctap2", "mc", [BaseReq EXCEPT !.rp = r, !.exclude = a, !.excludeGiven = g, !.user = "u3"], BaseEnv) >> :
+        r \in {"r1", "r2"}, a \in C05_Lists, g \in BOOLEAN }
+C05_CfgsRef == { [BaseCfg EXCEPT !.emptyAsErr = e] : e \in BOOLEAN }
+C05_CfgsMem == { [BaseCfg EXCEPT !.storeKind = "memory", !.disc = "forced"] }
+C05_CfgsSlot == { [BaseCfg EXCEPT !.storeKind = "slot", !.disc = "forced"] }
+C05_SlotStores == { <<s>> : s \in { t \in C05_Contents : Len(t) <= 1 } }
+\* the map-like store has no listing order: an id-less lookup is only predictable with one credential per RP
+C05_MemStores == { <<s>> : s \in { t \in C05_Contents :
+                      \A i \in 1..Len(t) : \A j \in 1..Len(t) : (i # j) => t[i].rp # t[j].rp } }
+    \cup { <<s>> : s \in C05_Contents }
+
+-----------------------------------------------------------------------------
+(* C08: counters                                                            *)
+
+C08_Ctrs == { NoCtr, Ctr(0, 0), Ctr(0, 1), Ctr(32767, 65535), Ctr(32768, 0), Ctr(65535, 65534), Ctr(65535, 65535) }
+C08_Cfgs == { [BaseCfg EXCEPT !.hmac = "withoutuv"] }
+C08_Stores == { << <<Cred("c1", "r1", "u1", a, "both"), Cred("c2", "r1", "u2", b, "none")>> >> :
+                  a \in C08_Ctrs, b \in {NoCtr, Ctr(0, 5)} }
+C08_Ga(id, p) == Cer("ctap2", "ga", [BaseReq EXCEPT !.allow = <<id>>, !.allowGiven = TRUE,
+                                                    !.prf = IF p /\ id = "c1" THEN PrfOne ELSE NoPrfReq], BaseEnv)
+C08_Steps == { C08_Ga(id, p) : id \in {"c1", "c2"}, p \in BOOLEAN } \cup
+             { Cer("ctap2", "mc", [BaseReq EXCEPT !.user = "u3"], BaseEnv) }
+C08_Cers == UNION { [1..n -> C08_Steps] : n \in 1..3 }
+
+-----------------------------------------------------------------------------
+(* C02 / C03 (authenticator level): what a relying party can verify         *)
+
+Algs == {"ES256", "RS256", "EdDSA", "unknown"}
+AlgLists == UNION { [1..n -> Algs] : n \in 0..3 }
+C02_Cfgs == { [BaseCfg EXCEPT !.idLen = n, !.counterOn = c] : n \in {0, 15, 16, 40, 64, 65, 255}, c \in BOOLEAN }
+C02_Stores == { << <<>> >>, << <<Cred("c1", "r1", "u1", NoCtr, "none")>> >> }
+C02_Cers == { << Cer("ctap2", "mc", [BaseReq EXCEPT !.algs = a, !.rk = TRUE], BaseEnv) >> : a \in AlgLists }
+C02_HistCers ==
+    { << Cer("ctap2", "mc", [BaseReq EXCEPT !.algs = a, !.rp = r1], BaseEnv),
+         Cer("ctap2", "mc", [BaseReq EXCEPT !.algs = b, !.rp = r2, !.user = "u2", !.rk = TRUE], BaseEnv),
+         Cer("ctap2", "mc", [BaseReq EXCEPT !.algs = <<"RS256", "ES256">>, !.rp = "r1", !.user = "u2"], BaseEnv) >> :
+        a \in {<<"ES256">>, <<"EdDSA">>}, b \in {<<"ES256", "RS256">>, <<"unknown">>}, r1 \in {"r1", "r2"}, r2 \in {"r1", "r2"} }
+
+C03_Cfgs == { [BaseCfg EXCEPT !.counterOn = c, !.emptyAsErr = e] : c \in BOOLEAN, e \in BOOLEAN }
+C03_Stores == { << <<>> >>, << <<Cred("c1", "r2", "u1", Ctr(0, 3), "none")>> >> }
+C03_Reg(r, u, rk) == Cer("ctap2", "mc", [BaseReq EXCEPT !.rp = r, !.user = u, !.rk = rk], BaseEnv)
+C03_Auth(r, a, uv, ans) == Cer("ctap2", "ga", [BaseReq EXCEPT !.rp = r, !.allow = a, !.allowGiven = (a # <<"absent">>),
+                                               !.uv = uv], [BaseEnv EXCEPT !.uv = ans])
+C03_Allow == { <<>>, <<"n1">>, <<"n2">>, <<"x1">>, <<"c1">>, <<"x1", "n1">>, <<"n2", "n1">> }
+C03_Cers ==
+    { << C03_Reg("r1", "u1", rk), C03_Reg(r, "u2", TRUE),
+         Cer("ctap2", "ga", [BaseReq EXCEPT !.rp = ra, !.allow = a, !.allowGiven = g, !.uv = uv], [BaseEnv EXCEPT !.uv = UvOk(TRUE, uv)]) >> :
+        rk \in BOOLEAN, r \in {"r1", "r2"}, ra \in {"r1", "r2"}, a \in C03_Allow, g \in BOOLEAN, uv \in BOOLEAN }
 
 =============================================================================
